@@ -14,6 +14,7 @@ mod j;
 mod tabulate;
 mod cases;
 mod looprun;
+mod supervise;
 
 fn usage() -> ! {
   eprintln!("usage: tmv <subcommand> [args]\n\
@@ -29,7 +30,8 @@ fn usage() -> ! {
     svcscalars                            build_service_text for every Unicode scalar, compressed\n\
     svcfile <cases.ndjson>                the same projection of unit texts written by the real binary\n\
     wire <cases.ndjson>                   DevInputWriter::send / DevInputReader::next over a pipe\n\
-    loop <schedules.ndjson>               run the real per-device loop under scripted schedules");
+    loop <schedules.ndjson>               run the real per-device loop under scripted schedules\n\
+    supervise <schedules.ndjson>          run the real --auto-all-keyboards supervisor (inside the namespace lib/e3.py prepares)");
   std::process::exit(2);
 }
 
@@ -53,6 +55,7 @@ fn main() {
     "svcfile" => { if rest.len() != 1 { usage(); } cases::cmd_svcfile(&rest[0]) },
     "wire" => { if rest.len() != 1 { usage(); } cases::cmd_wire(&rest[0]) },
     "loop" => { if rest.len() != 1 { usage(); } looprun::cmd_loop(&rest[0]) },
+    "supervise" => { if rest.len() != 1 { usage(); } supervise::cmd_supervise(&rest[0]) },
     _ => usage()
   }
 }
